@@ -58,7 +58,7 @@ ASSUMPTIONS = [
     'happen): only "no exception, self-consistent (suffix, count) pair" is asserted there',
     'negative n and str content are DONT-CARE',
 ]
-INTERPRETER_FLAGS = [[], ['-O'], [], ['-bb']]
+INTERPRETER_FLAGS = [[], ['-O'], ['-X', 'dev'], ['-bb']]
 SHARDS = {'quick': 4, 'thorough': 16}
 
 CHUNKS = [1, 2, 7, 64, 4096, 65536]
@@ -198,7 +198,12 @@ def _ev_cksum(ctx, case, fu):
             # patched sleep that calls back): two computations in flight share nothing
             import time as _time
             p2 = os.path.join(d, 'other.bin')
-            data2 = content(max(1, size // 2 + 7), cseed + 1)
+            # (the one started in between is sometimes the bigger job: larger file, larger read size)
+            bigger = bool(cseed % 2)
+            data2 = content(min(size * 3 + 11, 3 << 20) if bigger else max(1, size // 2 + 7), cseed + 1)
+            kw2 = dict(kw)
+            if bigger:
+                kw2['read_chunksize'] = (cs or 65536) * 4
             _write(p2, data2)
             want2 = hashlib.new(alg or 'sha256', data2).hexdigest()
 
@@ -211,7 +216,7 @@ def _ev_cksum(ctx, case, fu):
                         inner['busy'] = True
                         inner['n'] += 1
                         try:
-                            g2, e2 = _call(fu.compute_file_checksum, p2, **kw)
+                            g2, e2 = _call(fu.compute_file_checksum, p2, **kw2)
                             if e2 is not None or g2 != want2:
                                 inner['bad'] = {'inner_got': g2, 'inner_want': want2, 'exc': e2}
                         finally:
@@ -440,9 +445,29 @@ def _ev_tmpfile(ctx, case, fu):
                 shutil.rmtree(os.path.join(base, missing[0]), ignore_errors=True)
                 returned = []
                 ctx.clause('tempfile-dirs-removed-between-calls')
+            collide_dir = deftmp if case['default_dir'] else target
+            real_names = tempfile._get_candidate_names
+            if case.get('collide') and os.path.isdir(collide_dir):
+                # the first random name the standard library proposes is already taken by a file of exactly the final
+                # name (the one-in-a-trillion collision "distinct from any existing one" is about, made certain)
+                rnd = 'taken%dx' % callno
+                _write(os.path.join(collide_dir, (case['prefix'] if case['prefix'] is not None else 'tmp') + rnd +
+                                    (case['suffix'] if case['suffix'] is not None else '')), b'an older file, not ours')
+
+                def _names(rnd=rnd):
+                    def gen():
+                        yield rnd
+                        for n in real_names():
+                            yield n
+                    return gen()
+                tempfile._get_candidate_names = _names
+                ctx.clause('tempfile-first-proposed-name-taken')
             before = _snapshot(d)
             dirs_missing = (not case['default_dir']) and not os.path.isdir(target)
-            got, exc = _call(fu.write_to_tempfile, arg, **kw)
+            try:
+                got, exc = _call(fu.write_to_tempfile, arg, **kw)
+            finally:
+                tempfile._get_candidate_names = real_names
             after = _snapshot(d)
             key = ('tmpfile', tuple(existing), tuple(missing), case['pre'], case['suffix'], case['prefix'],
                    case['default_dir'], case.get('trailing_slash'), callno, csize, case['cseed'])
@@ -730,7 +755,14 @@ def _ev_delete_inject(ctx, case, fu):
 
 
 REMOVERS = {'default': None, 'unlink': os.unlink, 'remove': os.remove, 'rmdir': os.rmdir,
-            'rmtree': shutil.rmtree}
+            'rmtree': shutil.rmtree,
+            # callers' removers that spell the name differently before they hand it to the OS: the error then carries
+            # another spelling of the same file (or bytes) in .filename
+            'unlink-dotted': lambda p: os.unlink(os.path.join(os.path.dirname(p), '.', os.path.basename(p))),
+            'unlink-bytes': lambda p: os.unlink(os.fsencode(p)),
+            'unlink-via-parent': lambda p: os.unlink(os.path.join(os.path.dirname(p), 'x', '..', os.path.basename(p)))
+            if os.path.isdir(os.path.join(os.path.dirname(p), 'x')) else os.unlink(os.path.dirname(p) + os.sep + os.sep + os.path.basename(p)),
+            'rmdir-slash': lambda p: os.rmdir(p + os.sep)}
 
 
 def _ev_delete_real(ctx, case, fu):
@@ -761,7 +793,7 @@ def _ev_delete_real(ctx, case, fu):
         got, exc = _call(fu.delete_if_exists, t, **kw)
         after = _snapshot(d)
         # independent expectation, from POSIX semantics of the chosen remover
-        unlinkish = remover in ('default', 'unlink', 'remove')
+        unlinkish = remover in ('default', 'unlink', 'remove') or remover.startswith('unlink-')
         if state in ('absent', 'absent-in-absent-dir'):
             expect = 'absent-ok'
         elif state == 'under-a-file':
@@ -978,6 +1010,8 @@ def run(ctx):
             for remover in sorted(REMOVERS):
                 if remover == 'rmtree' and 'symlink' in state:
                     continue        # what shutil.rmtree reports for a symlink is version dependent
+                if '-' in remover and 'symlink' in state:
+                    continue        # (a trailing separator makes the OS follow the link: another question)
                 name = 'v%04x%s' % (rd.getrandbits(16), rd.choice(['', '.txt', ' x', '.é']))
                 emit(dict(kind='delete-real', state=state, remover=remover, name=name, size=rd.randrange(0, 100)))
 
@@ -1018,7 +1052,7 @@ def run(ctx):
                   cseed=rs.getrandbits(30), suffix=rt.choice(suffixes), prefix=rt.choice(prefixes),
                   default_dir=rt.random() < 0.1, explicit_none=rt.random() < 0.5,
                   remove_between=rt.random() < 0.25, ensure_first=rt.random() < 0.2,
-                  trailing_slash=rt.random() < 0.15))
+                  trailing_slash=rt.random() < 0.15, collide=rt.random() < 0.3))
 
 
 LEVEL_TEXT = ('Fault enumeration: OSError(e) for every e in errno.errorcode (130 on this platform, plus four '
